@@ -258,13 +258,30 @@ fn gen(bits: u32) -> Vec<Ty> {
     types.push(leaf2);
     let generic = f(1);
     let inner_concrete = if f(2) { "Leaf2" } else { "Leaf" };
-    let mut mid = Ty { name: "Mid".into(), header: if generic { "Mid(T <- Leaf)".into() } else { "Mid".into() }, ..Default::default() };
+    // with bit 11 a generic Mid has a second parameter, bound to the *other* leaf type
+    let two_params = generic && f(11);
+    let other_concrete = if f(2) { "Leaf" } else { "Leaf2" };
+    let mut mid = Ty {
+        name: "Mid".into(),
+        header: if two_params {
+            "Mid(T <- Leaf, U <- Leaf)".into()
+        } else if generic {
+            "Mid(T <- Leaf)".into()
+        } else {
+            "Mid".into()
+        },
+        ..Default::default()
+    };
     mid.gates.push(("dn", Some(2)));
     mid.gates.push(("up", None));
     mid.subs.push(Sub { name: "s", size: None, ty: inner_concrete.into(), ty_txt: if generic { "T".into() } else { inner_concrete.into() } });
     if f(11) {
         // a second (and a clustered third) field typed with the same parameter / type
-        mid.subs.push(Sub { name: "s2", size: None, ty: inner_concrete.into(), ty_txt: if generic { "T".into() } else { inner_concrete.into() } });
+        if two_params {
+            mid.subs.push(Sub { name: "s2", size: None, ty: other_concrete.into(), ty_txt: "U".into() });
+        } else {
+            mid.subs.push(Sub { name: "s2", size: None, ty: inner_concrete.into(), ty_txt: if generic { "T".into() } else { inner_concrete.into() } });
+        }
         mid.subs.push(Sub { name: "sc", size: Some(2), ty: inner_concrete.into(), ty_txt: if generic { "T".into() } else { inner_concrete.into() } });
     }
     if f(3) {
@@ -281,7 +298,18 @@ fn gen(bits: u32) -> Vec<Ty> {
     }
     types.push(mid);
     let mut main = Ty { name: "Main".into(), header: "Main".into(), ..Default::default() };
-    main.subs.push(Sub { name: "m", size: None, ty: "Mid".into(), ty_txt: if generic { format!("Mid({inner_concrete})") } else { "Mid".into() } });
+    main.subs.push(Sub {
+        name: "m",
+        size: None,
+        ty: "Mid".into(),
+        ty_txt: if two_params {
+            format!("Mid({inner_concrete}, {other_concrete})")
+        } else if generic {
+            format!("Mid({inner_concrete})")
+        } else {
+            "Mid".into()
+        },
+    });
     main.subs.push(Sub { name: "a", size: None, ty: "Leaf".into(), ty_txt: "Leaf".into() });
     main.subs.push(Sub { name: "c", size: Some(2), ty: if f(7) { "Leaf2".into() } else { "Leaf".into() }, ty_txt: if f(7) { "Leaf2".into() } else { "Leaf".into() } });
     if f(12) {
@@ -309,6 +337,13 @@ fn gen(bits: u32) -> Vec<Ty> {
         }
         types.push(top);
         main.subs.push(Sub { name: "t", size: None, ty: "Top".into(), ty_txt: "Top".into() });
+        if f(12) {
+            // a second level of inheritance that adds one gate
+            let mut top2 = Ty { name: "Top2".into(), header: "Top2".into(), inherit: Some("Top".into()), ..Default::default() };
+            top2.gates.push(("w", None));
+            types.push(top2);
+            main.subs.push(Sub { name: "t2", size: None, ty: "Top2".into(), ty_txt: "Top2".into() });
+        }
     }
     if f(8) {
         main.conns.push(Conn { a: acc("a/g"), b: acc("m/up"), link: false });
@@ -348,6 +383,7 @@ macro_rules! registry {
             .symbol_fn("Other", |_| Sym("Other".into()))
             .symbol_fn("Base", |_| Sym("Base".into()))
             .symbol_fn("Top", |_| Sym("Top".into()))
+            .symbol_fn("Top2", |_| Sym("Top2".into()))
     };
 }
 
@@ -515,7 +551,7 @@ fn sem_mutant(bits: u32, which: &str) -> Option<String> {
         "unequal_cluster_sizes" => t[main].conns.push(Conn { a: acc("c/g"), b: acc("a/g"), link: false }),
         "inherit_cycle" => t[leaf].inherit = Some("Leaf2".into()),
         "submodule_cycle" => t[leaf].subs.push(Sub { name: "r", size: None, ty: "Main".into(), ty_txt: "Main".into() }),
-        "wrong_arg_count" if generic => t[main].subs[0].ty_txt = "Mid(Leaf, Leaf)".into(),
+        "wrong_arg_count" if generic => t[main].subs[0].ty_txt = "Mid(Leaf, Leaf, Leaf)".into(),
         "wrong_arg_count" => return None,
         "args_on_non_generic" if !generic => t[main].subs[0].ty_txt = "Mid(Leaf)".into(),
         "args_on_non_generic" => return None,
@@ -555,7 +591,7 @@ impl Property for C18 {
     }
     fn rule(&self, tier: Tier) -> String {
         format!(
-            "conformance: all 2^{NBITS} = 65536 documents of the feature-bit grammar (cluster gates, generic Mid with type argument, inherited argument type, several fields typed with the same parameter, submodule clusters incl. size one, a type inheriting gates / submodules / connections with and without own additions, nested/cluster/indexed connections with and without link, inherited cluster element type, cluster-to-cluster and indexed connections at the top level, the same gate pair stated twice: verbatim, as an indexed restatement of a group statement, and by a child type restating an inherited connection, endpoints three segments deep (a grandchild's gate, plain and through clusters)) built with nodes_from_ndl and compared with a reference elaborator (modules with registered software, gate clusters, connections incl. link metrics and queue size); \
+            "conformance: all 2^{NBITS} = 65536 documents of the feature-bit grammar (cluster gates, generic Mid with one or two type arguments (bound to different types), inherited argument type, several fields typed with the same parameter, submodule clusters incl. size one, a type inheriting gates / submodules / connections with and without own additions, a second level of inheritance, nested/cluster/indexed connections with and without link, inherited cluster element type, cluster-to-cluster and indexed connections at the top level, the same gate pair stated twice: verbatim, as an indexed restatement of a group statement, and by a child type restating an inherited connection, endpoints three segments deep (a grandchild's gate, plain and through clusters)) built with nodes_from_ndl and compared with a reference elaborator (modules with registered software, gate clusters, connections incl. link metrics and queue size); \
              semantic mutations: {} single-point mutations (one per error cause of the statement) applied to {} generated documents, each must yield an error; \
              textual mutations: every scalar of {} base documents replaced by each of {} garbled/dangling tokens, outcome must be a network or an error, never a panic; \
              non-trivial = document that has at least one connection (conformance) or every mutated document (totality)",
